@@ -19,6 +19,7 @@ import (
 	"testing"
 
 	"github.com/openbao/openbao/sdk/v2/logical"
+	"github.com/openbao/openbao/v2/internal/helper/namespace"
 	auditFile "github.com/openbao/openbao/v2/internal/builtin/audit/file"
 	"github.com/openbao/openbao/v2/internal/vault/routing"
 	"github.com/openbao/openbao/v2/internal/zzverif/vh"
@@ -89,10 +90,78 @@ func c11eHeaders(t *testing.T, out *vh.Out) {
 	}
 }
 
+// c11eHeadersStandby: a standby that serves (and audits) requests itself keeps the audited-headers configuration in
+// memory; when the active node changes it the standby receives a storage invalidation for the persisted entry and must
+// follow. The node is made a standby the way invalidation_test.go does (standby flag, invalidation manager started); the
+// active node's write is placed in storage around the cache. Op line: hdrstandby <to-hmac|removed> => hdr:<hmac|clear|absent>
+func c11eHeadersStandby(t *testing.T, out *vh.Out) {
+	for _, upd := range []string{"to-hmac", "removed"} {
+		out.Reset()
+		p := vhNewPhys(t)
+		c, _, root := vhNewCore(t, p, nil, func(conf *CoreConfig) {
+			conf.AuditBackends["file"] = auditFile.Factory
+		})
+		logPath := filepath.Join(t.TempDir(), "audit.log")
+		fme := &routing.MountEntry{Table: auditTableType, Path: "c11hsb", Type: "file", Options: map[string]string{"file_path": logPath}}
+		if err := c.enableAudit(vhRootCtx(), fme, true); err != nil {
+			t.Fatalf("enable file audit device: %v", err)
+		}
+		if cl, _ := vhReq(c, logical.UpdateOperation, "sys/config/auditing/request-headers/X-Verif-Secret", root, map[string]any{"hmac": false}); cl != "ok" {
+			t.Fatalf("header config: %s", cl)
+		}
+		c.standby.Store(true)
+		c.invalidations.Track()
+		c.stateLock.RLock()
+		c.invalidations.Start(t.Context())
+		c.stateLock.RUnlock()
+		key := "sys/" + auditedHeadersSubPath + auditedHeadersEntry
+		cfg := map[string]*auditedHeaderSettings{}
+		if upd == "to-hmac" {
+			cfg["x-verif-secret"] = &auditedHeaderSettings{HMAC: true}
+		}
+		entry, err := logical.StorageEntryJSON(key, cfg)
+		if err != nil {
+			t.Fatal(err)
+		}
+		c.physicalCache.SetEnabled(false)
+		if err := c.NamespaceView(namespace.RootNamespace).Put(vhRootCtx(), entry); err != nil {
+			t.Fatal(err)
+		}
+		c.physicalCache.SetEnabled(true)
+		res := ""
+		if err := c.invalidateSynchronous(key); err != nil {
+			res = "invalidation-error|"
+		}
+		b0, _ := os.ReadFile(logPath)
+		canary := "CANARYhsb" + upd
+		req := &logical.Request{Operation: logical.ReadOperation, Path: "sys/mounts", ClientToken: root, Headers: map[string][]string{"X-Verif-Secret": {canary}}}
+		req.SetTokenEntry(nil)
+		if _, err := c.HandleRequest(vhRootCtx(), req); err != nil {
+			res += "request-error|"
+		}
+		b1, _ := os.ReadFile(logPath)
+		lines := string(b1[len(b0):])
+		hdr := "absent"
+		switch {
+		case strings.Contains(lines, canary):
+			hdr = "clear"
+		case strings.Contains(strings.ToLower(lines), "x-verif-secret"):
+			hdr = "hmac"
+		}
+		res += "hdr:" + hdr
+		if hdr == "clear" {
+			res += "!VIOL:a standby that audits its own requests wrote a request header in clear although the cluster's persisted configuration (changed by the active node) says " + upd + "#audited-header-in-clear-on-standby"
+		}
+		out.Op(res, "hdrstandby", upd)
+		_ = c.Shutdown()
+	}
+}
+
 func TestVerifC11E2E(t *testing.T) {
 	out := vh.Open()
 	defer out.Close()
 	c11eHeaders(t, out)
+	c11eHeadersStandby(t, out)
 	rng := vh.NewRand(vh.Seed() ^ 0xe2e11)
 	cases := 10
 	if vh.Thorough() {
